@@ -88,19 +88,29 @@ type vH struct {
 }
 
 func vNewH(ifi config.Interface, exp *model.ExpIface, seedOffset time.Duration) *vH {
+	return vNewHShared(ifi, exp, seedOffset, nil)
+}
+
+// vNewHShared builds a harness that shares trace, State, metrics and logger
+// with another one (several interfaces of one daemon).
+func vNewHShared(ifi config.Interface, exp *model.ExpIface, seedOffset time.Duration, shared *vH) *vH {
 	// CoreRAD seeds its PRNGs from the clock; move the clock first so that
 	// its draws are a function of the scenario.
 	if seedOffset > 0 {
 		time.Sleep(seedOffset)
 	}
 	h := &vH{cfg: ifi, exp: exp}
-	h.tr = vfake.NewTrace()
-	h.st = vfake.NewState(h.tr)
+	if shared != nil {
+		h.tr, h.st, h.mem, h.mm, h.lw, h.cctx = shared.tr, shared.st, shared.mem, shared.mm, shared.lw, shared.cctx
+	} else {
+		h.tr = vfake.NewTrace()
+		h.st = vfake.NewState(h.tr)
+		h.mem = metricslite.NewMemory()
+		h.mm = NewMetrics(h.mem, "verif", time.Time{}, h.st, []config.Interface{ifi})
+		h.lw = &vfake.LogWriter{Tr: h.tr}
+		h.cctx = NewContext(log.New(h.lw, "", 0), h.mm, h.st)
+	}
 	h.st.SetForwarding(ifi.Name, true)
-	h.mem = metricslite.NewMemory()
-	h.mm = NewMetrics(h.mem, "verif", time.Time{}, h.st, []config.Interface{ifi})
-	h.lw = &vfake.LogWriter{Tr: h.tr}
-	h.cctx = NewContext(log.New(h.lw, "", 0), h.mm, h.st)
 	h.watchC = make(chan netstate.Change, 8)
 	h.ctx, h.cancel = context.WithCancel(context.Background())
 	h.runDone = make(chan struct{})
@@ -115,18 +125,19 @@ func (h *vH) dialFunc() (*system.DialContext, error) {
 	h.mu.Unlock()
 	if de != nil {
 		if err := de(k); err != nil {
-			h.tr.Add(vfake.Event{Kind: "dial", ID: k, Err: err.Error()})
+			h.tr.Add(vfake.Event{Kind: "dial", If: h.cfg.Name, ID: k, Err: err.Error()})
 			return nil, err
 		}
 	}
 	h.mu.Lock()
 	c := vfake.NewConn(h.tr, len(h.conns)+1)
+	c.If = h.cfg.Name
 	if h.connSetup != nil {
 		h.connSetup(c)
 	}
 	h.conns = append(h.conns, c)
 	h.mu.Unlock()
-	h.tr.Add(vfake.Event{Kind: "dial", ID: k, Gen: c.Gen})
+	h.tr.Add(vfake.Event{Kind: "dial", If: h.cfg.Name, ID: k, Gen: c.Gen})
 	ifi := &net.Interface{Index: 4242, Name: h.cfg.Name, MTU: 1500, Flags: net.FlagUp}
 	if !h.noMAC {
 		ifi.HardwareAddr = vMAC
@@ -140,13 +151,13 @@ func (h *vH) startAdvertiser() {
 	d.DialFunc = h.dialFunc
 	h.adv = NewAdvertiser(h.cctx, h.cfg, d, h.watchC, func() bool {
 		v := h.term.Load()
-		h.tr.Add(vfake.Event{Kind: "terminate_read", Val: b2i(v)})
+		h.tr.Add(vfake.Event{Kind: "terminate_read", If: h.cfg.Name, Val: b2i(v)})
 		return v
 	})
 	go func() {
 		err := h.adv.Run(h.ctx)
 		h.runErr = err
-		e := vfake.Event{Kind: "run_return"}
+		e := vfake.Event{Kind: "run_return", If: h.cfg.Name}
 		if err != nil {
 			e.Err = err.Error()
 		}
@@ -232,7 +243,7 @@ func (h *vH) rs(src netip.Addr, slla bool) int {
 
 func (h *vH) stop(terminate bool) {
 	h.term.Store(terminate)
-	h.tr.Add(vfake.Event{Kind: "cancel", Val: b2i(terminate)})
+	h.tr.Add(vfake.Event{Kind: "cancel", If: h.cfg.Name, Val: b2i(terminate)})
 	h.cancel()
 }
 
